@@ -193,6 +193,8 @@ def apply(it, fn, args, dest_ty, term, caller, depth):
         if a.is_conc() and b.is_conc():
             return a.like(val=max(0, a.val - b.val)) if not a.signed else Unsupported
         lt = bv.compare("Lt", a, b)
+        if lt is None and it.h is not None:
+            lt = it.h.unknown_compare(it, "Lt", a, b)
         if lt is True:
             return a.like(val=0)
         if lt is False:
@@ -222,6 +224,18 @@ def apply(it, fn, args, dest_ty, term, caller, depth):
             return mkbool((a.variant == b.variant) == (name == "eq"))
         if isinstance(a, Int) and isinstance(b, Int):
             return it.binop("Eq" if name == "eq" else "Ne", a, b, dest_ty)
+    if name == "ne" and fn.get("trait", "").endswith("PartialEq") and len(args) == 2 and it.find_body(fn) is None:
+        a, b = deref_val(it, args[0]), deref_val(it, args[1])
+        if isinstance(a, Adt) and isinstance(b, Adt) and a.name == b.name:
+            ub = None
+            for bdy in (it.facts.insts.values() if it.mono else it.facts.fns.values()):
+                if bdy["path"].endswith("::eq") and (bdy.get("impl_trait", "") or bdy["path"]).find("PartialEq") >= 0 and bdy.get("impl_self", "").split("<")[0] == a.name:
+                    ub = bdy
+                    break
+            if ub is not None:
+                r = it.call_body(ub, [Ref(Cell(a, "a")), Ref(Cell(b, "b"))], depth + 1)
+                if isinstance(r, Int):
+                    return mkbool(not r.val) if r.is_conc() else Int(r.w, r.signed, bits=[bv.t_not(r.getbits()[0])] + list(r.getbits()[1:]), kind=r.kind)
     if name in ("cmp", "partial_cmp", "lt", "le", "gt", "ge") and fn.get("trait", "").split("::")[-1] in ("Ord", "PartialOrd") and len(args) == 2 \
             and it.find_body(fn) is None:
         a, b = deref_val(it, args[0]), deref_val(it, args[1])
@@ -632,6 +646,9 @@ def index_model(it, base, idx):
     n = (len(v.elems) - base.off) if base.len is None else base.len
     if isinstance(idx, Int):
         if not idx.is_conc():
+            lk = it.table_lookup(v, idx, base.off) if base.len is None else None
+            if lk is not None:
+                return Ref(Cell(lk, "table-lookup (read-only)"))
             raise Undecided("symbolic index %r" % (idx,))
         if idx.val >= n:
             raise Diverge("index %d out of range %d" % (idx.val, n))
@@ -1030,6 +1047,9 @@ def iter_next(it, cur, term, caller, depth, back=False):
         if k == "owned":
             return nxt, some(it.read(eref.cell, eref.path))
         return nxt, some(eref)
+    if k == "chunks_exact":
+        inner, item = iter_next(it, cur.a[0], term, caller, depth, back)
+        return IterV("chunks_exact", (inner, cur.a[1])), item
     if k == "chars":
         ref, pos, end = cur.a
         if pos >= end:
